@@ -81,6 +81,14 @@ func (P *Program) concretize(fn *ssa.Function, target string, opts VerifyOpts) (
 			params = append(params, pi)
 		}
 		ex.callFn(fn, args, True())
+		// the target must be reachable without relying on other labelled assertions
+		skipHyps = map[int]bool{}
+		for _, o := range ex.obls {
+			if (o.Class == "assert" || o.Class == "post") && o.HypIdx >= 0 {
+				skipHyps[o.HypIdx] = true
+			}
+		}
+		defer func() { skipHyps = nil }()
 		for _, o := range ex.obls {
 			if o.Optional || baseName(o.Name) != tb || o.Status != "" {
 				continue
@@ -154,7 +162,12 @@ func (P *Program) concretize(fn *ssa.Function, target string, opts VerifyOpts) (
 			}
 			var bytesVals []string
 			if len(byteTerms) > 0 {
-				asserts := append([]*Term{}, ex.hyps[:o.NHyps]...)
+				var asserts []*Term
+				for i, h := range ex.hyps[:o.NHyps] {
+					if !skipHyps[i] {
+						asserts = append(asserts, h)
+					}
+				}
 				asserts = append(asserts, Not(o.Goal))
 				asserts = append(asserts, fix...)
 				q2 := RenderQuery(asserts, byteTerms, ex.quant, "", true)
@@ -268,6 +281,10 @@ func verifReplayBytes(h string, isNil bool) []byte {
 func TestVerifReplay(t *testing.T) {
 	defer func() {
 		r := recover()
+		if len(verifFailures) > 0 {
+			fmt.Printf("REPLAY-RESULT: failed-assertions: %%v\n", verifFailures)
+			return
+		}
 		if r == nil {
 			fmt.Println("REPLAY-RESULT: ok")
 			return
@@ -305,7 +322,21 @@ func TestVerifReplay(t *testing.T) {
 			res = strings.TrimPrefix(l, "REPLAY-RESULT: ")
 		}
 	}
+	label := ""
+	if i := strings.Index(rf.Obligation, "#assert:"); i >= 0 {
+		label = rf.Obligation[i+len("#assert:"):]
+	} else if i := strings.Index(rf.Obligation, "#post:"); i >= 0 {
+		label = rf.Obligation[i+len("#post:"):]
+	}
 	switch {
+	case strings.HasPrefix(res, "failed-assertions"):
+		rf.Observed = res
+		if label == "" || strings.Contains(res, label) {
+			rf.Status = "confirmed"
+		} else {
+			rf.Status = "not-reproduced"
+			rf.Note = "the input makes other assertions of the lemma fail, not this one"
+		}
 	case strings.HasPrefix(res, "panic"):
 		rf.Status = "confirmed"
 		rf.Observed = res
